@@ -209,18 +209,19 @@ def run(ctx):
     rnd = random.Random(ctx.seed)
 
     # ------------------------------------------------------------------ 1. design (TLC on the specification)
-    d1 = ctx.tlc("RawHTTP", "MC_RawHTTP_h1.cfg", timeout=1800)
-    d2 = ctx.tlc("RawHTTP", "MC_RawHTTP_h2.cfg", timeout=1800)
-    d3 = ctx.tlc("RawHTTP", "MC_RawHTTP_agrees.cfg", timeout=1800)
-    d4 = ctx.tlc("RawHTTPEnc", "MC_RawHTTPEnc_q.cfg" if q else "MC_RawHTTPEnc.cfg", timeout=3000)
-    # sensitivity of the design theorems (mutations of the SPECIFICATION must be refuted by TLC)
-    s1 = ctx.tlc("RawHTTP", "MC_RawHTTP_nodel.cfg", expect_violation=True, timeout=600)
-    s2 = ctx.tlc("RawHTTPEnc", "MC_RawHTTPEnc_adopt.cfg", expect_violation=True, timeout=600)
-    if s1.violated != "RawExact" or s2.violated != "OnlyRangeErrors":
-        raise vf.Machinery("design sensitivity runs did not produce the expected counterexamples: %s %s" % (s1.violated, s2.violated))
-    ctx.notes["design"] = dict(arbitration_h1=d1.distinct, arbitration_h2=d2.distinct, machine_eq_declarative=d3.distinct,
-                               encoder=d4.distinct, refuted_spec_mutations=["finish without clearing same-named keys (RawExact)",
-                                                                          "compressor Close closes the sink (OnlyRangeErrors)"])
+    if not ctx.replay:
+        d1 = ctx.tlc("RawHTTP", "MC_RawHTTP_h1.cfg", timeout=1800)
+        d2 = ctx.tlc("RawHTTP", "MC_RawHTTP_h2.cfg", timeout=1800)
+        d3 = ctx.tlc("RawHTTP", "MC_RawHTTP_agrees.cfg", timeout=1800)
+        d4 = ctx.tlc("RawHTTPEnc", "MC_RawHTTPEnc_q.cfg" if q else "MC_RawHTTPEnc.cfg", timeout=3000)
+        # sensitivity of the design theorems (mutations of the SPECIFICATION must be refuted by TLC)
+        s1 = ctx.tlc("RawHTTP", "MC_RawHTTP_nodel.cfg", expect_violation=True, timeout=600)
+        s2 = ctx.tlc("RawHTTPEnc", "MC_RawHTTPEnc_adopt.cfg", expect_violation=True, timeout=600)
+        if s1.violated != "RawExact" or s2.violated != "OnlyRangeErrors":
+            raise vf.Machinery("design sensitivity runs did not produce the expected counterexamples: %s %s" % (s1.violated, s2.violated))
+        ctx.notes["design"] = dict(arbitration_h1=d1.distinct, arbitration_h2=d2.distinct, machine_eq_declarative=d3.distinct,
+                                   encoder=d4.distinct, refuted_spec_mutations=["finish without clearing same-named keys (RawExact)",
+                                                                              "compressor Close closes the sink (OnlyRangeErrors)"])
 
     # ------------------------------------------------------------------ 2. behaviours and definitions
     g_ops = ctx.tlc("Gen_RawHTTP", "Gen_RawHTTP_q.cfg" if q else "Gen_RawHTTP_t.cfg", timeout=3000)
@@ -228,9 +229,12 @@ def run(ctx):
     defs = g_ops.json_lines("DEFS ")
     if not ops or len(defs) != 1:
         raise vf.Machinery("Gen_RawHTTP printed %d behaviours, %d DEFS lines" % (len(ops), len(defs)))
-    g_resp = ctx.tlc("Gen_RawHTTPDefs", "Gen_RawHTTPDefs_resp.cfg", timeout=3000).json_lines("SCN ")
-    g_req = ctx.tlc("Gen_RawHTTPDefs", "Gen_RawHTTPDefs_req.cfg", timeout=3000).json_lines("SCN ")
-    g_body = ctx.tlc("Gen_RawHTTPDefs", "Gen_RawHTTPDefs_body.cfg", timeout=3000).json_lines("SCN ")
+    if ctx.replay:
+        g_resp, g_req, g_body = [], [], []
+    else:
+        g_resp = ctx.tlc("Gen_RawHTTPDefs", "Gen_RawHTTPDefs_resp.cfg", timeout=3000).json_lines("SCN ")
+        g_req = ctx.tlc("Gen_RawHTTPDefs", "Gen_RawHTTPDefs_req.cfg", timeout=3000).json_lines("SCN ")
+        g_body = ctx.tlc("Gen_RawHTTPDefs", "Gen_RawHTTPDefs_body.cfg", timeout=3000).json_lines("SCN ")
     n_resp_all, n_req_all = len(g_resp), len(g_req)
     if q:   # quick: a seeded sample of the enumerated domain (thorough: all of it)
         g_resp = _sample(g_resp, 300, rnd)
